@@ -293,6 +293,10 @@ static inline long long QIODevice_write__cstr_longlong(QIODevice *d, cstr data, 
 static inline QByteArray QIODevice_readAll(QIODevice *d)
 { QByteArray b; b.isnull = 0; b.id = nondet_int(); b.owner = 0; b.nl = 0; b.src_id = 0; b.src_isnull = 0; b.enc = 0;
   long long n = (d->obj == OBJ_IN) ? g_new.size : nondet_ll(); __CPROVER_assume(n >= 0 && n <= INT_MAXV - 32); b.len = (int)n; return b; }
+/* read(maxlen): at most maxlen bytes from the current position: some part of the file (any content) */
+static inline QByteArray QIODevice_read__longlong(QIODevice *d, long long maxlen)
+{ QByteArray b; b.isnull = 0; b.id = nondet_int(); b.owner = 0; b.nl = 0; b.src_id = 0; b.src_isnull = 0; b.enc = 0;
+  long long n = nondet_ll(); __CPROVER_assume(n >= 0 && n <= INT_MAXV - 32 && (maxlen < 0 || n <= maxlen)); b.len = (int)n; return b; }
 static inline QByteArray qCompress__QByteArray_int(QByteArray data, int level)
 { QByteArray b = data; int n = nondet_int(); __CPROVER_assume(n >= 0 && n <= INT_MAXV - 32); b.len = n; b.id = nondet_int(); return b; }
 static inline cstr QByteArray_constData(QByteArray b) { cstr c; c.isnull = 0; c.id = b.id; c.len = b.len; c.owner = 1; c.ptr = 0; return c; }
